@@ -206,7 +206,7 @@ Proof.
 Qed.
 
 (* ---------------------------------------------------------------- feedback rings (C04) *)
-Record stage := { r_ent : nat; r_sig : sig; r_var : var }.
+Record stage := { sg_ent : nat; sg_sig : sig; sg_var : var }.
 
 (* compose the next-state terms around the ring: start from the term of the first stage (in terms
    of the LAST stage's variable) and substitute it for the first stage's variable in the second
@@ -215,9 +215,9 @@ Fixpoint compose (st' : state term) (stages : list stage) (acc : option (var * t
   match stages with
   | [] => match acc with Some (_, t) => Some t | None => None end
   | sg :: rest =>
-      let nx := get talg (nth (r_ent sg) st' []) (r_sig sg) in
+      let nx := get talg (nth (sg_ent sg) st' []) (sg_sig sg) in
       let nx' := match acc with Some (v, t) => subst (TV v) t nx | None => nx end in
-      compose st' rest (Some (r_var sg, nx'))
+      compose st' rest (Some (sg_var sg, nx'))
   end.
 
 Fixpoint mentions_var (v : var) (t : term) : bool :=
@@ -234,13 +234,13 @@ Fixpoint ring_shape (st' : state term) (all_vars : list var) (prev : var) (stage
   match stages with
   | [] => true
   | sg :: rest =>
-      let nx := get talg (nth (r_ent sg) st' []) (r_sig sg) in
+      let nx := get talg (nth (sg_ent sg) st' []) (sg_sig sg) in
       forallb (fun v => Pos.eqb v prev || negb (mentions_var v nx)) all_vars
-      && only_sig (nth (r_ent sg) st' []) (r_sig sg)
-      && ring_shape st' all_vars (r_var sg) rest
+      && only_sig (nth (sg_ent sg) st' []) (sg_sig sg)
+      && ring_shape st' all_vars (sg_var sg) rest
   end.
 
-Definition last_var (stages : list stage) : var := match rev stages with sg :: _ => r_var sg | [] => 1%positive end.
+Definition last_var (stages : list stage) : var := match rev stages with sg :: _ => sg_var sg | [] => 1%positive end.
 
 (* [fexpr] is the written expression with the read standing for the declaration whose value is the
    LAST stage's variable (what every reader sees) *)
@@ -252,7 +252,7 @@ Definition check_ring (b : bp) (cut : cut_t) (fuel : nat) (ds : list decl)
       let fb := freeze b cut in
       if forallb (fun ot => term_eqb (observe talg fb st (fst ot)) (snd ot)) (c01_outs (b_univ b) ds qs)
          && forallb (pc_ok fb st) (prog_pcs (b_univ b) ds rs)
-         && ring_shape st' (map r_var stages) (last_var stages) stages
+         && ring_shape st' (map sg_var stages) (last_var stages) stages
          && match compose st' stages None with
             | Some t => term_eqb t (sden (b_univ b) ds fexpr)
             | None => false
@@ -273,8 +273,8 @@ Theorem check_ring_sound b cut fuel ds qs rs stages fexpr L :
        let s := map (hm (eval env)) st in
        step (zalg env) (freeze b cut) s = s /\
        forall sg, In sg stages ->
-         zget env (nth (r_ent sg) (step (zalg env) b s) []) (r_sig sg)
-         = eval env (get talg (nth (r_ent sg) st' []) (r_sig sg))).
+         zget env (nth (sg_ent sg) (step (zalg env) b s) []) (sg_sig sg)
+         = eval env (get talg (nth (sg_ent sg) st' []) (sg_sig sg))).
 Proof.
   unfold check_ring. destruct (cell_step b cut fuel) as [[[k' st] st']|] eqn:CS; [|discriminate].
   destruct (forallb _ (c01_outs (b_univ b) ds qs) && forallb _ (prog_pcs (b_univ b) ds rs) && ring_shape _ _ _ _ && _) eqn:Q; [|discriminate].
